@@ -303,6 +303,38 @@ impl Prop for C08 {
                 }
             }
             ctx.class("help-at-every-depth");
+            // the same with every enclosing level's own items left out: the help of the
+            // innermost command must still win over the parents' missing items
+            if !path.is_empty() {
+                let mut line: Vec<Vec<u8>> = Vec::new();
+                let mut cs = &case.sent;
+                while let Some((name, sub)) = &cs.cmd {
+                    line.push(name.as_bytes().to_vec());
+                    cs = sub;
+                }
+                line.push(b"--help".to_vec());
+                let out = run(&parser, &line);
+                ctx.eval(1);
+                let expect = match standalone_help(cur_level, &path, b"--help") {
+                    Outcome::Stdout { text, .. } => text,
+                    other => return Verdict::fail("standalone-help-not-stdout", other.short()),
+                };
+                match &out {
+                    Outcome::Stdout { text, .. } if *text == expect => {}
+                    other => {
+                        return Verdict::fail(
+                            "help-after-command-name-loses-to-missing-parent-items",
+                            format!(
+                                "{:?}: expected the help of level {:?}, got {}",
+                                show_argv(&line),
+                                path,
+                                other.short()
+                            ),
+                        )
+                    }
+                }
+                ctx.class("help-with-parent-items-missing");
+            }
         }
         Verdict::Pass
     }
